@@ -822,7 +822,7 @@ def _s_one(R, stats, seed, L, n, kind, mode, methods, locs=("mean", "median"), d
                            dict(c, got_shape=list(z.shape), n_nonfinite=int((~np.isfinite(z)).sum()) if z.shape == inp.shape else None))
                     continue
                 dev = V64 - _r_loc(V64, lm)[:, None]
-                tiny = float(np.finfo(np.float32).eps) * np.max(np.abs(dev), axis=1)
+                tiny = float(np.finfo(np.float32).tiny) * np.max(np.abs(dev), axis=1)
                 sc = ref if ref.ndim == 2 else ref[:, None]
                 tl = tiny[:, None]
                 unsure = (sc > 0.5 * tl) & (sc < 2.0 * tl)          # float32 rounding may decide the guard either way
@@ -870,7 +870,7 @@ def _s_callers(R, seed):
     def refz(X64, lm, sm):
         dev = X64 - _r_loc(X64, lm)[:, None]
         sc = _r_scale(X64, sm)[:, None]
-        tiny = float(np.finfo(np.float32).eps) * np.max(np.abs(dev), axis=1)[:, None]
+        tiny = float(np.finfo(np.float32).tiny) * np.max(np.abs(dev), axis=1)[:, None]
         return dev / np.where(sc <= tiny, 1.0, sc)
 
     def compare(key, what, got, want, case):
